@@ -9,6 +9,7 @@
 package ceval
 
 import (
+	"sort"
 	"bytes"
 	"fmt"
 	"go/ast"
@@ -42,6 +43,7 @@ type List struct{ Elems []interface{} }
 type Func struct {
 	Lit  *ast.FuncLit
 	Decl *ast.FuncDecl
+	Std  *types.Func // a library function used as a value (strings.ToLower)
 	fr   *frame
 }
 
@@ -123,6 +125,57 @@ type frame struct {
 type retSig struct{ vals []interface{} }
 type brkSig struct{}
 type contSig struct{}
+type fallSig struct{}
+
+// Map is a map with comparable scalar keys (string, int64, bool); Nil is the nil map.
+type Map struct {
+	M    map[interface{}]interface{}
+	Elem types.Type
+}
+
+// dynType: the name of the dynamic type of an interface value, as the type switches of the repository
+// tell the kinds of node apart ("Name" for *ast.Name and ast.Name alike).
+func dynType(v interface{}) (string, bool) {
+	switch x := v.(type) {
+	case *Struct:
+		return x.Type, true
+	case string:
+		return "string", true
+	case int64:
+		return "int", true
+	case bool:
+		return "bool", true
+	}
+	return "", false
+}
+
+func typeName(t types.Type) string {
+	if p, ok := t.(*types.Pointer); ok {
+		t = p.Elem()
+	}
+	if n, ok := t.(*types.Named); ok {
+		return n.Obj().Name()
+	}
+	if b, ok := t.(*types.Basic); ok {
+		return b.Name()
+	}
+	return t.String()
+}
+
+// hasType: does the interface value v hold a value of type t?
+func (in *Interp) hasType(v interface{}, t types.Type) bool {
+	if _, isNil := v.(Nil); isNil {
+		return false
+	}
+	if _, isIface := t.Underlying().(*types.Interface); isIface {
+		return true // the scenarios only hold values of the interface's implementations
+	}
+	dn, ok := dynType(v)
+	if !ok {
+		in.fail(Unsupported, "dynamic type of %T", v)
+	}
+	return dn == typeName(t)
+}
 
 // Call evaluates fd on the receiver and arguments.
 func (in *Interp) Call(fd *ast.FuncDecl, recv interface{}, args []interface{}) (res []interface{}, st Status, why string) {
@@ -321,6 +374,7 @@ func (in *Interp) stmt(s ast.Stmt, fr *frame) interface{} {
 		coll := in.expr(x.X, fr)
 		var n int
 		var elem func(i int) interface{}
+		var mapKeys []interface{}
 		switch c := coll.(type) {
 		case Bytes:
 			n = len(c.B)
@@ -333,13 +387,29 @@ func (in *Interp) stmt(s ast.Stmt, fr *frame) interface{} {
 		case *List:
 			n = len(c.Elems)
 			elem = func(i int) interface{} { return copyIfValue(c.Elems[i], fr.info.TypeOf(x.X)) }
+		case *Map:
+			// in the order of the keys (the scenarios must not depend on the order)
+			var keys []interface{}
+			for k := range c.M {
+				keys = append(keys, k)
+			}
+			sort.Slice(keys, func(i, j int) bool { return fmt.Sprint(keys[i]) < fmt.Sprint(keys[j]) })
+			n = len(keys)
+			mapKeys = keys
+			elem = func(i int) interface{} { return c.M[keys[i]] }
+		case Nil:
+			n = 0
 		default:
 			in.fail(Unsupported, "range over %T", coll)
 		}
 		for i := 0; i < n; i++ {
 			in.tick()
 			if x.Key != nil {
-				in.assign(x.Key, int64(i), x.Tok == token.DEFINE, fr)
+				if mapKeys != nil {
+					in.assign(x.Key, mapKeys[i], x.Tok == token.DEFINE, fr)
+				} else {
+					in.assign(x.Key, int64(i), x.Tok == token.DEFINE, fr)
+				}
 			}
 			if x.Value != nil {
 				in.assign(x.Value, elem(i), x.Tok == token.DEFINE, fr)
@@ -365,6 +435,8 @@ func (in *Interp) stmt(s ast.Stmt, fr *frame) interface{} {
 			return brkSig{}
 		case token.CONTINUE:
 			return contSig{}
+		case token.FALLTHROUGH:
+			return fallSig{}
 		}
 		in.fail(Unsupported, "branch %s", x.Tok)
 	case *ast.IncDecStmt:
@@ -393,6 +465,28 @@ func (in *Interp) stmt(s ast.Stmt, fr *frame) interface{} {
 			return nil
 		}
 		var vals []interface{}
+		if len(x.Rhs) == 1 && len(x.Lhs) == 2 {
+			// v, ok := m[k]   v, ok := x.(T)
+			switch r := unparen(x.Rhs[0]).(type) {
+			case *ast.IndexExpr:
+				if _, isMap := fr.info.TypeOf(r.X).Underlying().(*types.Map); isMap {
+					v, ok := in.mapGet(r, fr)
+					in.assign(x.Lhs[0], v, x.Tok == token.DEFINE, fr)
+					in.assign(x.Lhs[1], ok, x.Tok == token.DEFINE, fr)
+					return nil
+				}
+			case *ast.TypeAssertExpr:
+				v := in.expr(r.X, fr)
+				t := fr.info.TypeOf(r.Type)
+				ok := in.hasType(v, t)
+				if !ok {
+					v = zeroOf(t)
+				}
+				in.assign(x.Lhs[0], v, x.Tok == token.DEFINE, fr)
+				in.assign(x.Lhs[1], ok, x.Tok == token.DEFINE, fr)
+				return nil
+			}
+		}
 		if len(x.Rhs) == 1 && len(x.Lhs) > 1 {
 			v := in.expr(x.Rhs[0], fr)
 			t, ok := v.([]interface{})
@@ -436,7 +530,7 @@ func (in *Interp) stmt(s ast.Stmt, fr *frame) interface{} {
 			tag = in.expr(x.Tag, fr)
 		}
 		var deflt *ast.CaseClause
-		for _, c := range x.Body.List {
+		for ci, c := range x.Body.List {
 			cc := c.(*ast.CaseClause)
 			if cc.List == nil {
 				deflt = cc
@@ -452,6 +546,13 @@ func (in *Interp) stmt(s ast.Stmt, fr *frame) interface{} {
 				}
 				if hit {
 					sig := in.block(cc.Body, fr)
+					// fallthrough: the bodies that follow run without their tests
+					for k := ci + 1; k < len(x.Body.List); k++ {
+						if _, ok := sig.(fallSig); !ok {
+							break
+						}
+						sig = in.block(x.Body.List[k].(*ast.CaseClause).Body, fr)
+					}
 					if _, ok := sig.(brkSig); ok {
 						return nil
 					}
@@ -467,6 +568,64 @@ func (in *Interp) stmt(s ast.Stmt, fr *frame) interface{} {
 			return sig
 		}
 		return nil
+	case *ast.TypeSwitchStmt:
+		if x.Init != nil {
+			in.stmt(x.Init, fr)
+		}
+		var ta *ast.TypeAssertExpr
+		var bind *ast.Ident
+		switch a := x.Assign.(type) {
+		case *ast.ExprStmt:
+			ta, _ = unparen(a.X).(*ast.TypeAssertExpr)
+		case *ast.AssignStmt:
+			if len(a.Lhs) == 1 && len(a.Rhs) == 1 {
+				bind, _ = a.Lhs[0].(*ast.Ident)
+				ta, _ = unparen(a.Rhs[0]).(*ast.TypeAssertExpr)
+			}
+		}
+		if ta == nil {
+			in.fail(Unsupported, "type switch of this form")
+		}
+		v := in.expr(ta.X, fr)
+		var chosen *ast.CaseClause
+		var deflt *ast.CaseClause
+	clauses:
+		for _, c := range x.Body.List {
+			cc := c.(*ast.CaseClause)
+			if cc.List == nil {
+				deflt = cc
+				continue
+			}
+			for _, e := range cc.List {
+				if id, ok := unparen(e).(*ast.Ident); ok && id.Name == "nil" {
+					if _, isNil := v.(Nil); isNil {
+						chosen = cc
+						break clauses
+					}
+					continue
+				}
+				if in.hasType(v, fr.info.TypeOf(e)) {
+					chosen = cc
+					break clauses
+				}
+			}
+		}
+		if chosen == nil {
+			chosen = deflt
+		}
+		if chosen == nil {
+			return nil
+		}
+		if bind != nil {
+			if o := fr.info.Implicits[chosen]; o != nil {
+				fr.vars[o] = v
+			}
+		}
+		sig := in.block(chosen.Body, fr)
+		if _, ok := sig.(brkSig); ok {
+			return nil
+		}
+		return sig
 	}
 	in.fail(Unsupported, "statement %T", s)
 	return nil
@@ -506,6 +665,13 @@ func (in *Interp) assign(l ast.Expr, v interface{}, define bool, fr *frame) {
 		st.Fields[x.Sel.Name] = v
 	case *ast.IndexExpr:
 		base := in.expr(x.X, fr)
+		if m, ok := base.(*Map); ok {
+			m.M[in.mapKey(in.expr(x.Index, fr))] = v
+			return
+		}
+		if _, isMap := fr.info.TypeOf(x.X).Underlying().(*types.Map); isMap {
+			in.fail(Panic, "assignment to an entry of a nil map in %s", types.ExprString(x))
+		}
 		idx, ok := in.expr(x.Index, fr).(int64)
 		if !ok {
 			in.fail(Unsupported, "non-integer index")
@@ -583,6 +749,14 @@ func (in *Interp) equal(a, b interface{}) bool {
 		}
 		y, ok := b.(*Struct)
 		return ok && x == y
+	case *Map:
+		if _, ok := b.(Nil); ok {
+			return false
+		}
+	case *List:
+		if _, ok := b.(Nil); ok {
+			return false
+		}
 	}
 	in.fail(Unsupported, "comparison of %T with %T", a, b)
 	return false
@@ -747,8 +921,33 @@ func (in *Interp) expr(e ast.Expr, fr *frame) interface{} {
 			}
 			return v
 		}
+		if fn, ok := fr.info.Uses[x.Sel].(*types.Func); ok && fr.info.Selections[x] == nil {
+			// a function of another package used as a value
+			if fd := in.decls[fn]; fd != nil {
+				return &Func{Decl: fd}
+			}
+			return &Func{Std: fn}
+		}
 		in.fail(Unsupported, "selector %s", types.ExprString(x))
+	case *ast.TypeAssertExpr:
+		v := in.expr(x.X, fr)
+		if x.Type == nil {
+			in.fail(Unsupported, "type switch guard outside a type switch")
+		}
+		t := fr.info.TypeOf(x.Type)
+		if !in.hasType(v, t) {
+			dn, _ := dynType(v)
+			if _, isNil := v.(Nil); isNil {
+				dn = "nil"
+			}
+			in.fail(Panic, "interface conversion in %s: the value is %s", types.ExprString(x), dn)
+		}
+		return v
 	case *ast.IndexExpr:
+		if _, isMap := fr.info.TypeOf(x.X).Underlying().(*types.Map); isMap {
+			v, _ := in.mapGet(x, fr)
+			return v
+		}
 		base := in.expr(x.X, fr)
 		idx, ok := in.expr(x.Index, fr).(int64)
 		if !ok {
@@ -813,6 +1012,9 @@ func (in *Interp) expr(e ast.Expr, fr *frame) interface{} {
 		return in.callExpr(x, fr)
 	case *ast.CompositeLit:
 		t := fr.info.TypeOf(x)
+		if mt, ok := t.Underlying().(*types.Map); ok {
+			return in.mapLit(x, mt, fr)
+		}
 		if sl, ok := t.Underlying().(*types.Slice); ok {
 			if b, ok := sl.Elem().Underlying().(*types.Basic); ok && b.Kind() == types.Byte {
 				var out []byte
@@ -901,6 +1103,59 @@ func (in *Interp) expr(e ast.Expr, fr *frame) interface{} {
 	}
 	in.fail(Unsupported, "expression %T", e)
 	return nil
+}
+
+func (in *Interp) mapKey(k interface{}) interface{} {
+	switch k.(type) {
+	case string, int64, bool:
+		return k
+	}
+	in.fail(Unsupported, "map key of %T", k)
+	return nil
+}
+
+// mapGet: m[k] with the comma-ok flag; a nil map reads as empty.
+func (in *Interp) mapGet(x *ast.IndexExpr, fr *frame) (interface{}, bool) {
+	base := in.expr(x.X, fr)
+	k := in.mapKey(in.expr(x.Index, fr))
+	mt := fr.info.TypeOf(x.X).Underlying().(*types.Map)
+	switch m := base.(type) {
+	case *Map:
+		if v, ok := m.M[k]; ok {
+			return v, true
+		}
+	case Nil:
+	default:
+		in.fail(Unsupported, "map read from %T", base)
+	}
+	return zeroOf(mt.Elem()), false
+}
+
+func (in *Interp) mapLit(x *ast.CompositeLit, mt *types.Map, fr *frame) interface{} {
+	m := &Map{M: map[interface{}]interface{}{}, Elem: mt.Elem()}
+	for _, el := range x.Elts {
+		kv, ok := el.(*ast.KeyValueExpr)
+		if !ok {
+			in.fail(Unsupported, "map literal element")
+		}
+		k := in.mapKey(in.expr(kv.Key, fr))
+		if cl, ok := kv.Value.(*ast.CompositeLit); ok && cl.Type == nil {
+			// {…} with the element type elided
+			switch et := mt.Elem().Underlying().(type) {
+			case *types.Map:
+				m.M[k] = in.mapLit(cl, et, fr)
+			case *types.Struct:
+				m.M[k] = in.structLit(cl, mt.Elem(), fr)
+			case *types.Pointer:
+				m.M[k] = in.structLit(cl, mt.Elem(), fr)
+			default:
+				in.fail(Unsupported, "map literal element of %s", mt.Elem())
+			}
+			continue
+		}
+		m.M[k] = in.expr(kv.Value, fr)
+	}
+	return m
 }
 
 // structLit: a struct literal whose type is given by the context (element of an array literal).
@@ -1079,8 +1334,17 @@ func (in *Interp) callExpr(c *ast.CallExpr, fr *frame) interface{} {
 					return int64(len(y))
 				case *List:
 					return int64(len(y.Elems))
+				case *Map:
+					return int64(len(y.M))
+				case Nil:
+					return int64(0)
 				}
 				in.fail(Unsupported, "len of this operand")
+			case "delete":
+				if m, ok := in.expr(c.Args[0], fr).(*Map); ok {
+					delete(m.M, in.mapKey(in.expr(c.Args[1], fr)))
+				}
+				return nil
 			case "cap":
 				switch y := in.expr(c.Args[0], fr).(type) {
 				case *List:
@@ -1098,6 +1362,11 @@ func (in *Interp) callExpr(c *ast.CallExpr, fr *frame) interface{} {
 				}
 				in.fail(Unsupported, "copy of these operands")
 			case "make":
+				if tv, ok := fr.info.Types[c.Args[0]]; ok && tv.IsType() {
+					if mt, ok := tv.Type.Underlying().(*types.Map); ok {
+						return &Map{M: map[interface{}]interface{}{}, Elem: mt.Elem()}
+					}
+				}
 				if tv, ok := fr.info.Types[c.Args[0]]; ok && tv.IsType() && len(c.Args) >= 2 {
 					if sl, ok := tv.Type.Underlying().(*types.Slice); ok {
 						n, ok1 := in.expr(c.Args[1], fr).(int64)
@@ -1178,10 +1447,7 @@ func (in *Interp) callExpr(c *ast.CallExpr, fr *frame) interface{} {
 			}
 			args = append(args, v)
 		}
-		if fv.Decl != nil {
-			return pack(in.call(fv.Decl, nil, args))
-		}
-		return pack(in.callLit(fv, args))
+		return pack(in.callFunc(fv, args))
 	}
 	var recv interface{}
 	if se, ok := unparen(c.Fun).(*ast.SelectorExpr); ok {
@@ -1215,6 +1481,25 @@ func (in *Interp) callExpr(c *ast.CallExpr, fr *frame) interface{} {
 	}
 	in.fail(Unsupported, "call of %s, which has no source here and no model", fn.FullName())
 	return nil
+}
+
+// callFunc calls a function value.
+func (in *Interp) callFunc(fv *Func, args []interface{}) []interface{} {
+	switch {
+	case fv.Decl != nil:
+		return in.call(fv.Decl, nil, args)
+	case fv.Std != nil:
+		if in.Ext != nil {
+			if res, handled := in.Ext(fv.Std, nil, args); handled {
+				return res
+			}
+		}
+		if res, ok := in.stdlib(fv.Std, args); ok {
+			return res
+		}
+		in.fail(Unsupported, "call of %s, which has no source here and no model", fv.Std.FullName())
+	}
+	return in.callLit(fv, args)
 }
 
 // callLit runs a function literal in a frame that sees the variables of the frame it was made in.
@@ -1360,6 +1645,61 @@ func (in *Interp) stdlib(fn *types.Func, args []interface{}) ([]interface{}, boo
 			return []interface{}{int64(strings.Index(a, b))}, true
 		case "EqualFold":
 			return []interface{}{strings.EqualFold(a, b)}, true
+		}
+	case "sort.SearchStrings":
+		if l, ok := args[0].(*List); ok {
+			if x, ok := args[1].(string); ok {
+				var ss []string
+				for _, e := range l.Elems {
+					es, ok := e.(string)
+					if !ok {
+						return nil, false
+					}
+					ss = append(ss, es)
+				}
+				return []interface{}{int64(sort.SearchStrings(ss, x))}, true
+			}
+		}
+	case "sort.SearchInts":
+		if l, ok := args[0].(*List); ok {
+			if x, ok := args[1].(int64); ok {
+				var is []int
+				for _, e := range l.Elems {
+					ei, ok := e.(int64)
+					if !ok {
+						return nil, false
+					}
+					is = append(is, int(ei))
+				}
+				return []interface{}{int64(sort.SearchInts(is, int(x)))}, true
+			}
+		}
+	case "sort.Search":
+		if n, ok := args[0].(int64); ok {
+			if fv, ok := args[1].(*Func); ok {
+				r := sort.Search(int(n), func(i int) bool {
+					out := in.callFunc(fv, []interface{}{int64(i)})
+					return len(out) == 1 && in.boolean(out[0], nil)
+				})
+				return []interface{}{int64(r)}, true
+			}
+		}
+	case "strings.Join":
+		if l, ok := args[0].(*List); ok {
+			if sep, ok := args[1].(string); ok {
+				var ss []string
+				for _, e := range l.Elems {
+					es, ok := e.(string)
+					if !ok {
+						return nil, false
+					}
+					ss = append(ss, es)
+				}
+				return []interface{}{strings.Join(ss, sep)}, true
+			}
+		}
+		if _, ok := args[0].(Nil); ok {
+			return []interface{}{""}, true
 		}
 	case "strings.SplitN", "strings.Split", "strings.SplitAfter", "strings.SplitAfterN":
 		a, ok1 := str(0)
